@@ -262,6 +262,11 @@ pub fn template_profile(t: &mut Tape) -> Profile {
     p.max_depth = 2;
     p.components = true;
     p.shadow = true;
+    if t.chance(90) {
+        // intermediate signals declared (and constrained) inside nested blocks, with colliding names
+        p.nested_signal_decls = true;
+        p.nested_signal_assign = true;
+    }
     p
 }
 
